@@ -91,8 +91,10 @@ func evalInput(s *eval.State, out *bytes.Buffer, text string, o evalOpts) (res s
 		return fmt.Sprintf("o=%s;v=%s;e=%s;p=%s;g=%s", hx(out.String()[start:]), v, b2s(isErr), pk,
 			dumpGlobals(s.VerifRootEnv().VerifStore()))
 	}
+	savedOut := s.Out
 	defer func() {
 		if r := recover(); r != nil {
+			s.Out = savedOut // as repl.EvalOne does: a panic inside a call leaves the call's private buffer installed
 			s.Reset()
 			res = finish("-", false, panicKind(r))
 		}
@@ -225,6 +227,8 @@ func evalGen(tier string, r *rng, emit func(string)) {
 			fam = famRedef(r)
 		case prop == "C04" && i%2 == 1:
 			fam = famCache(r)
+		case prop == "C05" && i%8 == 7:
+			fam = famRegsPanic(r)
 		case prop == "C05" && i%4 == 3:
 			fam = famRegs2(r)
 		case prop == "C05" && i%2 == 1:
@@ -250,6 +254,9 @@ func evalGen(tier string, r *rng, emit func(string)) {
 				hs[j] = hx(t)
 			}
 			opts := "steps=200000"
+			if prop == "C05" && i%8 == 7 {
+				opts = "steps=200000,d=70" // the depth guard fires inside the loops
+			}
 			if prop == "C07" && i%6 == 3 {
 				// shipped examples recurse 100000 deep and some mutations make every level cost O(depth) (info):
 				// a small depth limit and step budget keep a case within seconds
